@@ -132,8 +132,10 @@ class Snap:
         return lab
 
     def _norm(self, v, path, depth=0):
-        if v is None or isinstance(v, (bool, str)):
+        if v is None or isinstance(v, bool):
             return v
+        if isinstance(v, str):
+            return _HEX.sub("0x", v) if "0x" in v else v     # str(object()) of an accepted odd argument
         if isinstance(v, int):
             return ("int", str(v))
         if isinstance(v, float):
@@ -173,7 +175,7 @@ class Snap:
                 txt = v.format()
             except Exception as e:
                 txt = "format raises " + type(e).__name__
-            return ("node", type(v).__name__, txt)
+            return ("node", type(v).__name__, _HEX.sub("0x", txt))
         if hasattr(v, "__next__") or type(v).__name__ in ("generator", "dict_keys", "dict_values", "dict_items",
                                                            "map", "filter", "zip"):
             try:
@@ -208,7 +210,12 @@ class Snap:
         # the other zero-argument observations: str, repr, len, iteration, membership keys
         for fn, key in ((str, "str()"), (repr, "repr()")):
             try:
-                out[key] = _HEX.sub("0x", fn(o))[:400]
+                txt = fn(o)
+                if key == "repr()" and "\nNumber cache:" in txt:
+                    # NumberedObjectCollection.__repr__ prints its private number cache, which no look-up trusts
+                    # (C06_lookup) and which look-ups refresh: not a read of the problem
+                    txt = txt[:txt.index("\nNumber cache:")]
+                out[key] = _HEX.sub("0x", txt)[:400]
             except Exception as e:
                 out[key] = ("raises", type(e).__name__)
         if hasattr(type(o), "__len__"):
@@ -276,7 +283,7 @@ def _short(v):
 def written(problem, name):
     """bytes write_to_file produces, or the class of the exception"""
     try:
-        return mp.write_problem(problem, name)
+        return _HEX.sub("0x", mp.write_problem(problem, name))
     except Exception as e:
         return "WRITE RAISES " + type(e).__name__
 
